@@ -12,7 +12,7 @@ LEVEL = "exploration"
 ANCHOR_FILES = ["aw_transform/flood.py"]
 REQUIRED_COUNTERS = ["monitor.flood"]
 RULE = ("non-overlapping event sequences with distinct timestamps on a ms grid, 0-12 events (rarely 120-600), given in any order; in a third of them events end 1-999 µs past the grid; "
-        "zero-length events; equal/differing data between neighbours; chains of 3+; gaps at pulsetime-1ms, =pulsetime, "
+        "zero-length events; equal/differing data between neighbours; chains of 3+; gaps at pulsetime-1ms, =pulsetime, whole days / hours / minutes plus a remainder around the pulsetime, "
         "+1ms, 0; pulsetimes 0..10 s; non-trivial = at least one gap with 0 < gap <= pulsetime; signature = set of per-"
         "neighbour-pair classes (same/diff data, gap class, e1 longer/equal/shorter/zero) + length class")
 ASSUMPTIONS = ["event STARTS are millisecond aligned (the Event model truncates them); event ENDS may lie between milliseconds - a third of the generated sequences have such ends",
@@ -119,8 +119,13 @@ def gen_case(rng, ctx):
             gap = max(0, pu + rng.choice([0, 0, 1000, -1000, 2000, -2000]))
         elif r < 0.8:
             gap = rng.randrange(0, max(1, pu // 1000) + 1) * 1000
-        else:
+        elif r < 0.96:
             gap = pu + rng.randrange(1, 20) * unit
+        else:
+            # a long gap that LOOKS short once a component of it is dropped: whole days / hours / minutes plus a remainder
+            # around the pulsetime
+            gap = rng.choice([86400, 86400, 2 * 86400, 7 * 86400, 3600, 60, 1]) * 10**6 * rng.choice([1, 1, 3]) + max(
+                0, rng.choice([0, 1000, pu, pu - 1000, pu + 1000, pu // 2]))
         nxt = pos + dur + gap
         if nxt <= pos:           # distinct timestamps
             nxt = pos + 1000
